@@ -187,6 +187,7 @@ type Vector struct {
 	RepoHead  string     `json:"repo_head,omitempty"`
 	Signature string     `json:"signature,omitempty"`
 	Inputs    []string   `json:"inputs_readable,omitempty"`
+	Partial   bool       `json:"partial,omitempty"` // values of a decided prefix only: the native run takes zero values for the rest
 }
 
 type VecValue struct {
@@ -394,6 +395,47 @@ func (ex *Exec) recordViolation(model map[string]uint64, p *Predicted) {
 	ex.viols.add(&Violation{vec: vec, sig: sig})
 }
 
+// probeInconclusive: the executor cannot continue this path (an unmodelled
+// callee, a byte-level operation on a formatted number ...). The claim shrinks,
+// but the values that led here are known: the solver's model of the decided
+// prefix is replayed natively (remaining inputs zero). A native assertion
+// failure or panic is a real violation with a concrete input; a clean native
+// run says nothing and is not reported. At most a few probes per harness and
+// reason.
+func (ex *Exec) probeInconclusive(reason string) {
+	if ex.viols == nil || ex.par != nil {
+		return
+	}
+	sig := ex.harness + "|probe|" + reason
+	ex.viols.mu.Lock()
+	n := ex.viols.count[sig]
+	ex.viols.mu.Unlock()
+	if n >= 6 {
+		ex.viols.mu.Lock()
+		ex.viols.count[sig]++
+		ex.viols.mu.Unlock()
+		return
+	}
+	defer func() { recover() }() // a solver hiccup here must not turn into an engine error
+	model, r := ex.sol.model(ex.pc, nil, ex.symVarTerms())
+	if r != resSat {
+		return
+	}
+	vec := ex.buildVector(model)
+	vec.Partial = true
+	vec.Predicted = &Predicted{Outcome: "probe", Msg: reason}
+	ex.viols.add6(&Violation{vec: vec, sig: sig})
+}
+
+func (vs *violSet) add6(v *Violation) {
+	vs.mu.Lock()
+	defer vs.mu.Unlock()
+	vs.count[v.sig]++
+	if len(vs.bySig[v.sig]) < 6 {
+		vs.bySig[v.sig] = append(vs.bySig[v.sig], v)
+	}
+}
+
 func (ex *Exec) frozenViolation(msg string) {
 	model, r := ex.sol.model(ex.pc, nil, ex.symVarTerms())
 	if r == resSat {
@@ -468,6 +510,7 @@ func (ex *Exec) runPath(it workItem, harnessNames []string, cfg *runConfig) {
 					}
 					ex.st.inconclusive[x.msg]++
 					ex.st.inconcPerH[ex.harness]++
+					ex.probeInconclusive(x.msg)
 					ex.st.paths++
 					outcome = "inconclusive"
 				case "unwind":
